@@ -459,6 +459,20 @@ def run_exec_property(prop, tier, rng, n_quick, n_thorough, gen_kw, weights, nop
         w = gg.world()
         cases.append({"world": w, "ops": execlib.gen_ops(gg, w, rng.randint(*nops), weights)})
     res = fw.run_driver("exec", cases)
+    # with the recalculation option on, modelx recomputes the leaf dependents of an assigned element in the order
+    # of a SET and stops at the first failure: when such an assignment fails, which dependents were recomputed is
+    # not determined by the history.  The rest of such a case is dropped (the directed scenario scn_recalc makes
+    # the dependent unique and is kept).
+    ntrunc = 0
+    for c, r in zip(cases, res):
+        on = False
+        for k, (op, ob) in enumerate(zip(c["ops"], r["obs"])):
+            if op[0] == "recalc":
+                on = bool(op[1])
+            if op[0] == "setv" and on and ob["out"][0] == "err" and not (len(op) > 4 and op[4] == "single"):
+                c["ops"], r["obs"] = c["ops"][:k], r["obs"][:k]
+                ntrunc += 1
+                break
     opk, outk = {}, {}
     broken = set()
     for ci, (c, r) in enumerate(zip(cases, res)):
@@ -500,6 +514,7 @@ def run_exec_property(prop, tier, rng, n_quick, n_thorough, gen_kw, weights, nop
     out.extra["cases_meeting_theorem_hypotheses"] = len(good) - len(nohyp)
     if alt_gens:
         out.extra["sub_profiles"] = [{"share": sh, "knobs": kw, "cases": nalt[k]} for k, (sh, kw) in enumerate(alts)]
+    out.extra["histories_cut_at_a_failing_recalculation"] = ntrunc
     nonehits = sum(1 for c, r in zip(cases, res) for op, ob in zip(c["ops"], r["obs"]) if op[0] == "eval" and ob["out"] == ["val", None] and not ob["log"])
     out.extra["cache_hits_serving_None"] = nonehits
     out.extra["theorem_hypotheses"] = "refn_ok (by-name reads of visible references), no formula re-entered while executing"
